@@ -482,9 +482,36 @@ def obs_term(o) -> str:
 HEADER = 'From NL Require Import Prompt.Corr.\nOpen Scope Z_scope.\n'
 
 
-def cases_file(cases) -> str:
-    rows = [f'({clist(map(label_term, ls))},\n  {obs_term(o)})' for ls, o in cases]
-    return (HEADER + 'Definition cases : list (list label * observed) :=\n ' + clist(rows).replace('); (', ');\n (') + '.\n'
+LIT = 400     # longest list literal written in one piece (coqc's front end recurses over list literals)
+
+
+def _biglist(name: str, terms: list, ty: str, defs: list) -> str:
+    """A Coq term for the list; long lists are cut into named pieces of <= LIT elements joined by ++."""
+    if len(terms) <= LIT:
+        return clist(terms)
+    parts = []
+    for k in range(0, len(terms), LIT):
+        n = f'{name}_{k // LIT}'
+        defs.append(f'Definition {n} : list {ty} := {clist(terms[k:k + LIT])}.')
+        parts.append(n)
+    return '(' + ' ++ '.join(parts) + ')'
+
+
+def case_text(idx: int, ls, o):
+    """(auxiliary definitions, row term) of one case."""
+    defs: list = []
+    lab = _biglist(f'c{idx}_l', [label_term(l) for l in ls], 'label', defs)
+    opens = _biglist(f'c{idx}_o', [f'({cz(t)}, {cz(p)})' for t, p in o['opens']], '(Z * Z)', defs)
+    execs = _biglist(f'c{idx}_e', [f'({cz(t)}, {cz(p)}, {cz(c)})' for t, p, c in o['execs']], '(Z * Z * Z)', defs)
+    disc = _biglist(f'c{idx}_d', [f'({cz(p)}, {clist(cz(n) for n in ns)})' for p, ns in o['discards']], '(Z * list Z)', defs)
+    return defs, f'({lab},\n  (mkObs {opens} {execs} {disc} {cnat(o["asserts"])}))'
+
+
+def cases_file(texts) -> str:
+    """texts: list of (defs, row) from case_text."""
+    defs = [d for ds, _ in texts for d in ds]
+    rows = [r for _, r in texts]
+    return (HEADER + '\n'.join(defs) + '\nDefinition cases : list (list label * observed) :=\n ' + ';\n '.join(rows).join(['[', ']']) + '.\n'
             'Eval vm_compute in bad_from 0%nat cases.\n')
 
 
@@ -619,17 +646,30 @@ def _run(ctx, jobs) -> Corr:
         n_conc += mx >= 2
     corr.evaluations = len(cases)
     corr.extra['runs_lost_to_the_C18_done_callback_race'] = n_foreign
-    CH = 100
-    files = {f'c07_{i // CH}': cases_file(cases[i:i + CH]) for i in range(0, len(cases), CH)}
+    # shards: at most 100 cases and ~250 KB per file; a case bigger than that (a long run) gets a file of its own and its
+    # long lists are written in pieces (coqc overflows its stack on very long list literals)
+    CAP = 250_000
+    texts = [case_text(i, ls, o) for i, (ls, o) in enumerate(cases)]
+    shards, cur, size = [], [], 0         # each shard: list of indices into `cases`
+    for i, (defs, row) in enumerate(texts):
+        sz = len(row) + sum(len(d) for d in defs)
+        if cur and (size + sz > CAP or len(cur) >= 100):
+            shards.append(cur); cur, size = [], 0
+        cur.append(i); size += sz
+    if cur:
+        shards.append(cur)
+    files = {f'c07_{k}': cases_file([texts[i] for i in sh]) for k, sh in enumerate(shards)}
+    corr.extra['coq_case_files'] = len(files)
+    corr.extra['largest_case_file_bytes'] = max([len(t) for t in files.values()] or [0])
     for name, (ok, out) in ctx.coq_eval_many(files).items():
-        base = int(name.split('_')[1]) * CH
+        shard = shards[int(name.split('_')[1])]
         bad = C.parse_nat_list(out) if ok else None
         if bad is None:
             corr.mismatches.append({'kind': 'coq-eval-failed', 'file': name, 'log': out[-600:]})
             continue
         for b in bad:
-            job, res, summ = kept[base + b]
-            labels, obs = cases[base + b]
+            job, res, summ = kept[shard[b]]
+            labels, obs = cases[shard[b]]
             corr.mismatches.append({'kind': 'model-vs-impl', 'src': job['src'], 'policy_args': job['policy']['args'],
                                     'log': summ['log'], 'impl': obs})
     if kept:
